@@ -103,6 +103,9 @@ def gen_piece(rng: random.Random, enc: str, w: int, h: int, clean: bool, bright:
         return csi(";".join(ps), "m"), True, "sgr"
     if r < 0.93:
         return rng.choice([csi("5", "n"), csi("6", "n"), csi("", "c"), csi("0", "c")]), True, "query"
+    if r < 0.95:
+        # origin mode belongs to cursor addressing within scrolling regions: set and reset, also redundantly
+        return csi("?6", rng.choice("hl")), True, "decom"
     if clean:
         return b"x", True, "text"
     # everything below is outside the reference subset (only invariants / no-raise are checked)
